@@ -333,17 +333,31 @@ def main_check(prop, tier, seed, module, replay=None):
         # correspondence + oracle (the property module); when something is broken, search deeper
         ensure_repo_on_path()
         ctx.deep = bool(ctx.proof_failures)
+        def guarded(fn):
+            """a translator that no longer finds its source construct, or an adapter that no longer fits the code under
+            test, is a broken tie (handled like a broken proof), not an infrastructure failure"""
+            import traceback
+            try:
+                fn(ctx)
+            except (Infra, subprocess.TimeoutExpired):
+                raise
+            except translate.TranslateError as e:
+                ctx.proof_failures.append({"theorem": "translator", "msg": str(e)[:500]})
+            except Exception as e:  # noqa
+                ctx.proof_failures.append({"theorem": "correspondence-harness", "msg": traceback.format_exc()[-1500:]})
+
         if os.path.exists(os.path.join(BIN, ctx.driver)) and not ctx.notes.get("driver_build_failed"):
-            module.run(ctx)
+            guarded(module.run)
             if ctx.corr_diffs and not ctx.failures and not ctx.deep and hasattr(module, "search"):
                 ctx.deep = True
-                module.search(ctx)
-            elif ctx.deep and not ctx.failures and hasattr(module, "search"):
-                module.search(ctx)
+                guarded(module.search)
+            elif (ctx.deep or ctx.proof_failures) and not ctx.failures and hasattr(module, "search"):
+                ctx.deep = True
+                guarded(module.search)
         else:
             ctx.proof_failures.append({"theorem": "driver", "msg": "model driver could not be built"})
             if hasattr(module, "search"):
-                module.search(ctx)
+                guarded(module.search)
     except Infra as e:
         print("INFRA-FAILURE: %s" % e)
         sys.exit(2)
